@@ -632,3 +632,74 @@ PROPS["C12"] = dict(
             "thorough": "400 generated sequences; more octagon sequences"},
     outside=["more than 2 variables", "octagon constants beyond +-2 (every int64 weight is concretised)", "octagon meet exactness (known finding F21)", "sequences with more than one lattice operation"],
     assumptions=E2_ASSUME + ["the reference difference-bound matrix (Floyd-Warshall; for octagons the tight closure of Bagnara-Hill-Zaffanella) written in sym/h/exact.cpp is the specification of exactness"])
+
+# ---------------------------------------------------------------- C14: array domains
+ARR_CORE = [
+    "init,loadc.0", "init,storec.1,loadc.1,loadc.0", "init,idx,stores,loads,loadc.2", "init,storec.0,idx,stores,loadc.0", "init,range.0.1,loadc.2,loadc.0",
+    "init,storec.1,asg,loadb.1,storec.1,loadb.1,loadc.1", "init,storec.0,cpy,storec.0,join,loadc.0", "initv,idx,storev,loads", "init,storec.0,storec.1,storec.0,loadc.0,loadc.1",
+    "init,idx.1.2,stores,loadc.0,loadc.1", "init,storec.2,idx,stores,cpy,storec.2,wid,loadc.2", "init,idx,storev,idx,loads", "init,storec.1,idx,loads,asg,idx,stores,loadb.1,loadc.1",
+    "init,range.1.2,idx.0.1,stores,loadc.1", "storec.0,loadc.0", "init,storec.0,swp,init,storec.0,join,loadc.0,loadc.1",
+]
+ARR_PARAMS = [{}, {"smashable": "false", "nonzero": "false", "maxsmash": 2, "maxsize": 2}, {"smashable": "true", "nonzero": "false", "maxsmash": 2, "maxsize": 3},
+              {"smashable": "true", "nonzero": "true", "maxsmash": 1, "maxsize": 2}, {"smashable": "false", "nonzero": "true", "maxsmash": 64, "maxsize": 64}]
+
+
+def arr_histories(rng, n):
+    """well-formed histories only: arrays are initialised before use, the index variable is set before symbolic accesses"""
+    out = []
+    for _ in range(n):
+        k = rng.randint(3, 7)
+        s = [rng.choice(["init", "initv", "init"])]
+        has_idx = has_b = False
+        for _ in range(k):
+            ops = ["storec.0", "storec.1", "storec.2", "idx", "idx.0.1", "idx.1.2", "range.0.1", "range.1.2", "range.0.2", "loadc.0", "loadc.1", "loadc.2", "asg", "cpy", "swp", "join", "wid"]
+            if has_idx:
+                ops += ["stores", "storev", "loads", "stores", "loads"]
+            if has_b:
+                ops += ["asgba", "loadb.0", "loadb.1"]
+            o = rng.choice(ops)
+            if o in ("swp",) :
+                continue  # the other abstract state may not have the same arrays initialised
+            if o.startswith("idx"):
+                has_idx = True
+            if o == "asg":
+                has_b = True
+            s.append(o)
+        s.append(rng.choice(["loadc.0", "loadc.1"] + (["loads"] if has_idx else [])))
+        out.append(",".join(s))
+    return out
+
+
+def c14_jobs(tier, seed):
+    J = []
+    rng = random.Random(140 + seed)
+    hist = ARR_CORE + arr_histories(rng, 20 if tier == "quick" else 400)
+    doms = [20, 21, 26, 27]
+    for hi, s in enumerate(hist):
+        soft = hi >= len(ARR_CORE)
+        for n in (1, 3) if tier == "quick" else (1, 2, 3, 4):
+            if n == 1:
+                s1 = ",".join(o.replace(".1", ".0").replace(".2", ".0") if not o.startswith("idx") else "idx" for o in s.split(","))
+            else:
+                s1 = s
+            for d in doms:
+                plist = ARR_PARAMS if d in (21, 27) else [{}]
+                if tier == "quick":
+                    plist = plist if (d == 21 and not soft) else [plist[(hi + d) % len(plist)]]
+                for p in plist:
+                    args = dict(p)
+                    args.update({"seq": s1, "n": n})
+                    J.append(Job("arr", args, defines=("DOM=%d" % d,), budget=300, what="%s, %d cells, params %s: %s" % (DOMS.get(d, ("array domain over zones",))[0], n, p or "default", s1), witnesses=1, soft=soft))
+    return J
+
+
+DOMS[26] = ("array_smashing<split_dbm>", {})
+DOMS[27] = ("array_adaptive_domain<split_dbm>", {})
+PROPS["C14"] = dict(
+    jobs=c14_jobs,
+    explanation="array_smashing<Base> and array_adaptive_domain<Base> (Base = intervals, zones) are driven by histories of array_init, strong/weak array_store with constant and symbolic indices, array_store_range, array_assign, join, widening and array_load, next to a concrete word-level array (cells = solver terms, symbolic index = a symbolic cell number); "
+                "after every load z3 decides that the concrete value read is in at(lhs), and after every operation that the state is not bottom, for all stored values, initial contents and index values; every history is run under several array_adaptive parameter settings (smashable or not, smashing at non-zero offsets, small cell / size limits).",
+    bounds={"quick": "arrays of 1 and 3 cells of 4 bytes; 16 curated + 20 generated histories (<= 9 operations); array_adaptive<intervals> under 5 parameter settings for the curated histories, one setting otherwise; is_strong_update only for one-cell arrays (the documented contract)",
+            "thorough": "1-4 cells, 400 generated histories, all parameter settings on both adaptive domains"},
+    outside=["arrays with non-uniform element sizes (outside the documented word-level assumption)", "arrays of more than 4 cells", "Boolean arrays, arrays inside regions", "backward array operations"],
+    assumptions=E2_ASSUME)
